@@ -100,6 +100,21 @@ pub fn valid(p: &BPos) -> bool {
     !attacked(pcs, occ, pcs[them][K], us)
 }
 
+/// material a game can actually reach: <= 16 men a side, <= 8 pawns, every piece beyond the initial set paid for by a missing pawn
+pub fn legal_material(p: &BPos) -> bool {
+    let mut ok = true;
+    let mut c = 0;
+    while c < 2 {
+        let q = &p.pcs[c];
+        let pawns = q[P].count_ones();
+        let extra = q[N].count_ones().saturating_sub(2) + q[B].count_ones().saturating_sub(2)
+            + q[R].count_ones().saturating_sub(2) + q[Q].count_ones().saturating_sub(1);
+        if pawns > 8 || extra + pawns > 8 { ok = false; }
+        c += 1;
+    }
+    ok
+}
+
 #[cfg(kani)]
 pub fn any_bpos_raw() -> BPos {
     BPos {
@@ -171,7 +186,8 @@ pub fn game_of(p: &BPos) -> Game {
         plies: 0,
         zobrist: ZobristHash(0),
         incremental_eval: IncrementalEvalFields { phase_value: 0, piece_square_tables: PhasedEval::ZERO },
-        history: Vec::new(),
+        // capacity reserved up front: pushes never reallocate (Vec growth is std's business, not the engine's)
+        history: Vec::with_capacity(8),
     }
 }
 
